@@ -71,7 +71,11 @@ namespace detail
 		GLM_FUNC_QUALIFIER static vec<4, float, Q> call(vec<4, float, Q> const& v)
 		{
 			vec<4, float, Q> result;
-			result.data = glm_vec4_round(v.data);
+			// the scalar path is std::round: halfway cases away from zero (glm_vec4_round rounds them to even).
+			// floor(|x| + 0.49999997f) is that value: 0.49999997f is the float below 0.5, so the sum never rounds up to the next integer
+			__m128 const sgn0 = _mm_and_ps(v.data, _mm_castsi128_ps(_mm_set1_epi32(int(0x80000000))));
+			__m128 const flr0 = glm_vec4_floor(_mm_add_ps(glm_vec4_abs(v.data), _mm_set1_ps(0.49999997f)));
+			result.data = _mm_or_ps(flr0, sgn0);
 			return result;
 		}
 	};
